@@ -96,6 +96,10 @@ def resugar(e):
             b = e["b"]
             first = b["stmts"][0]
             iff = first["e"] if first["k"] in ("expr", "semi") else None
+            rest_rets = any(x.get("k") == "ret" for s_ in b["stmts"][1:] for x in walk(s_.get("e") or s_.get("init") or {})) or \
+                ("e" in b and any(x.get("k") == "ret" for x in walk(b["e"])))
+            if rest_rets:
+                raise KeyError          # another `return` in the rest of the body: not a plain search loop (left as `loop`: tail-recursion form)
             if iff and iff.get("k") == "if" and "e" not in iff and iff["c"].get("k") == "letx" and not any(x.get("k") in ("break", "continue") for x in walk(b)):
                 # loop { if let P = E { return V(P); } REST }   ==   while !matches!(E, P) { REST }  match E { P => return V(P), _ => unreachable }   (E is re-evaluated: it
                 # must be free of effects, which holds for the probe calls this idiom is used with; the locals REST assigns are the loop state)
